@@ -233,8 +233,13 @@ pub fn run(ctx: &mut Ctx) {
                 Err(_) => return,
             }
         }
+        let want: Vec<RValue> = idl.iter().map(model_value).collect();
+        // a third of the cases start from a hand-built spelling of the same values (see `hand_built`)
+        if rng.chance(1, 3) {
+            idl = idl.iter().map(|v| hand_built(rng, v)).collect();
+            ctx.count("cover:hand-built-values");
+        }
         let args = IDLArgs { args: idl };
-        let want: Vec<RValue> = args.args.iter().map(model_value).collect();
         let label_feature = if names.values().any(|n| n == "_") {
             "label=_"
         } else if names.values().any(|n| n.contains(',')) {
